@@ -428,6 +428,114 @@ func (m c06) delivery(c *core.Ctx, fault string, mm *ugo.ModuleMap) {
 	}
 }
 
+// c06syncScripts: a Go panic raised inside an operation on a *SyncMap (the globals themselves, or a SyncMap value): the key's
+// String method panics while the map's lock is held.
+var c06syncScripts = []string{
+	"gl := globals()\ntry {\n  gl[OBJ] = 1\n} catch e {\n  return \"caught\"\n}\nreturn 0",
+	"try {\n  return globals()[OBJ]\n} catch e {\n  return \"caught\"\n}",
+	"try {\n  SM[OBJ] = 1\n} catch e {\n  return \"caught\"\n}\nreturn 0",
+	"try {\n  return SM[OBJ]\n} catch e {\n  return \"caught\"\n}",
+	"gl := globals()\ngl[OBJ] = 1\nreturn 1",
+	"return SM[OBJ]",
+	"try {\n  delete(SM, OBJ)\n} catch e {\n  return \"caught\"\n}\nreturn 0",
+	"try {\n  return contains(SM, OBJ)\n} catch e {\n  return \"caught\"\n}",
+	"try {\n  for k, v in SM {\n    PANICSTR()\n  }\n} catch e {\n  return \"caught\"\n}\nreturn 0",
+	"try {\n  SM.a = OBJ + 1\n} catch e {\n  return \"caught\"\n}\nreturn 0",
+	"try {\n  return string(SM) + string(OBJ)\n} catch e {\n  return \"caught\"\n}",
+	"try {\n  return copy(SM)[OBJ]\n} catch e {\n  return \"caught\"\n}",
+}
+
+var c06syncOff bool
+
+// syncRun: the run with *SyncMap globals, then a second script on the same VM with the same globals that reads and writes
+// both SyncMaps. A lock left behind by the recovered panic shows as that second run never returning.
+func (m c06) syncRun(c *core.Ctx, body string) {
+	if c06syncOff {
+		c.Count("skipped_after_syncmap_hang")
+		return
+	}
+	src := "global (OBJ, SM, PANICSTR)\n" + body
+	wit := c06wit{Src: src, Fault: "panic inside a SyncMap operation", Context: "syncmap-globals"}
+	cr := safeCompile([]byte(src), ugo.CompilerOptions{NoOptimize: true})
+	if cr.err != nil || cr.panicv != "" {
+		c.Inconclusive("syncmap script does not compile: " + fmt.Sprint(cr.err) + cr.panicv)
+		return
+	}
+	f2 := safeCompile([]byte("global (SM, x)\nx = 7\nSM.b = 2\nn := 0\nfor k, v in SM {\n  n++\n}\nreturn [x, SM.a, SM.b, globals()[\"x\"], n > 0]"), ugo.CompilerOptions{NoOptimize: true})
+	if f2.err != nil {
+		c.Inconclusive("syncmap follow-up does not compile")
+		return
+	}
+	st := &c06stats{}
+	g := &ugo.SyncMap{Value: c06globals(st)}
+	g.Value["SM"] = &ugo.SyncMap{Value: ugo.Map{"a": ugo.Int(1)}}
+	vm := ugo.NewVM(cr.bc).SetRecover(true)
+	bounded := func(f func() (ugo.Object, error)) (v ugo.Object, err error, pan any, finished bool) {
+		done := make(chan struct{})
+		go func() {
+			defer close(done)
+			defer func() {
+				if r := recover(); r != nil {
+					pan = r
+				}
+			}()
+			v, err = f()
+		}()
+		select {
+		case <-done:
+			return v, err, pan, true
+		case <-time.After(15 * time.Second):
+			vm.Abort()
+			select {
+			case <-done:
+				return v, err, pan, true
+			case <-time.After(5 * time.Second):
+				return nil, nil, nil, false
+			}
+		}
+	}
+	v, err, pan, fin := bounded(func() (ugo.Object, error) { return vm.Run(g) })
+	c.Count("syncmap_runs")
+	if !fin {
+		c06syncOff = true
+		c.Violation("C06|syncmap|first-run-hang", "a run with *SyncMap globals whose key panics does not return (not even after Abort)", wit)
+		return
+	}
+	if pan != nil {
+		c.Violation("C06|host-panic|syncmap|"+core.NormMsg(fmt.Sprint(pan)), "panic escaped VM.Run with recovery enabled: "+trunc(fmt.Sprint(pan), 200), wit)
+		return
+	}
+	if err == nil && v == nil {
+		c.Violation("C06|nil-nil", "Run returned neither a value nor an error", wit)
+		return
+	}
+	for stage := 0; stage < 2; stage++ {
+		if stage == 1 {
+			vm.Clear()
+		}
+		v2, e2, p2, fin2 := bounded(func() (ugo.Object, error) { return vm.SetBytecode(f2.bc).Run(g) })
+		got := ""
+		switch {
+		case !fin2:
+			got = "hang: a script reading and writing the same SyncMaps never returns (20 s, Abort ignored)"
+			c06syncOff = true
+		case p2 != nil:
+			got = "panic: " + fmt.Sprint(p2)
+		case e2 != nil:
+			got = "error: " + strings.SplitN(e2.Error(), "\n", 2)[0]
+		default:
+			got = canon.Value(v2)
+		}
+		if want := "[i:7 i:1 i:2 i:7 b:true]"; got != want && !strings.HasPrefix(got, "[i:7") || !fin2 || p2 != nil || e2 != nil {
+			w := wit
+			w.Why, w.Detail = "follow-up on the same SyncMaps", got
+			c.Violation("C06|followup|syncmap|"+core.NormMsg(strings.SplitN(got, ":", 2)[0]), "after a panic inside a SyncMap operation was recovered, a later script using the same SyncMaps does not run correctly: "+trunc(got, 160), w)
+			return
+		}
+		c.Count("followup_ok")
+	}
+}
+
 func (m c06) Run(c *core.Ctx) {
 	mm := ugo.NewModuleMap()
 	mm.Add("strings", stdlibModule("strings"))
@@ -464,6 +572,18 @@ func (m c06) Run(c *core.Ctx) {
 				c.Sample(map[string]string{"fault": trunc(f, 80), "context": cx.name})
 			}
 		}
+	}
+	for si, body := range c06syncScripts {
+		idx++
+		if idx%c.NBatch != c.Batch {
+			continue
+		}
+		body := body
+		if !c.Begin(func() string { return "syncmap globals\n" + body }) {
+			continue
+		}
+		m.syncRun(c, body)
+		c.Nontrivial(fmt.Sprintf("syncmap %d", si))
 	}
 	for _, f := range c06faults {
 		if strings.Contains(f, "var r;") {
